@@ -320,7 +320,11 @@ class Screen(_raw_display_base.Screen):
             selector.register(fd, selectors.EVENT_READ)
             input_ready = selector.select(0)
             while input_ready:
-                chars.extend(os.read(fd, 1024))
+                data = os.read(fd, 1024)
+                if not data:
+                    # end of file: the descriptor stays "readable" forever
+                    break
+                chars.extend(data)
                 input_ready = selector.select(0)
 
             return chars
